@@ -346,3 +346,51 @@ func ZZ_C15_PortUpdate() {
 		vf_Assert(vf_Iff(got, want), "portupdate-history-independent-answer")
 	}
 }
+
+// C15 (thorough tier): histories of THREE operations, the alphabet split in two halves so that the exploration completes:
+// half 0 = namespace / pod / NetworkPolicy operations incl. pod updates, ClearResources and SetResources (from a base with
+// or without a policy); half 1 = namespace and admin-policy operations (from the base holding the three ANPs).
+func ZZ_C15_History3() {
+	u := zzNewC15()
+	pe := NewPolicyEngine()
+	u.apply(pe, 0)
+	u.apply(pe, 3)
+	u.apply(pe, 5)
+	var alphabet []int
+	if vf_Choose("half", 2) == 0 {
+		alphabet = []int{0, 1, 2, 3, 4, 5, 6, 7, 8, 9, 16, 19, 20, 21, 22}
+		switch vf_Choose("base.np", 3) {
+		case 1:
+			u.apply(pe, 7)
+		case 2:
+			u.apply(pe, 8)
+		}
+	} else {
+		alphabet = []int{1, 2, 0, 10, 11, 12, 13, 14, 15, 16, 17, 18}
+		if vf_Choose("base.np", 2) == 1 {
+			u.apply(pe, 8)
+		}
+		u.apply(pe, 10)
+		u.apply(pe, 12)
+		u.apply(pe, 17)
+	}
+	u.apply(pe, 16) // one query already cached
+	var trace string
+	for i := 0; i < 3; i++ {
+		k := alphabet[vf_Choose(fmt.Sprintf("op%d", i), len(alphabet))]
+		trace += fmt.Sprintf("%d,", k)
+		u.apply(pe, k)
+	}
+	got, err := pe.CheckIfAllowed("ns1/p2", "ns1/p1", "TCP", "80")
+	if u.curNs == nil {
+		return // as in ZZ_C15_History
+	}
+	fresh, ferr := NewPolicyEngineWithObjects(u.objects())
+	vf_Assert(ferr == nil, "fresh-engine-built")
+	want, err2 := fresh.CheckIfAllowed("ns1/p2", "ns1/p1", "TCP", "80")
+	vf_Observe("trace", trace)
+	vf_Assert((err == nil) == (err2 == nil), "history3-independent-error")
+	if err == nil && err2 == nil {
+		vf_Assert(vf_Iff(got, want), "history3-independent-answer")
+	}
+}
